@@ -1,21 +1,10 @@
 (* C14 — the custom operation builder emits valid, faithful, history-free documents.
    Property theorems only; proofs live in Proofs/BuilderP.v, the model in Model/Builder.v
-   (the model describes /repo AFTER the seven builder fixes 54e286b..0e87b8b). *)
+   (the model describes /repo after the builder fixes 54e286b..0e87b8b, 3032a3a and 5c467bf). *)
 From Coq Require Import List String Ascii Bool ZArith.
 From AC Require Import Base.Json Model.Builder Proofs.BuilderP.
 Import ListNotations.
 Local Open Scope string_scope.
-
-(* ---- full statements -------------------------------------------------------------------- *)
-(* doc_valid + values_bound, with NO guard: whenever the operation [es] can be built after the
-   history [hist], its request — every $variable replaced by (declared type, bound value) — IS the
-   request the expression stands for *)
-Definition C14_faithful_full : Prop := forall ct fuel hist es b,
-  faithful_on ct fuel hist es = Some b -> b = true.
-(* history_free: the request of an expression is the same from every reachable store *)
-Definition C14_history_free_full : Prop := forall ct fuel hist st es,
-  run_hist ct fuel (store0 ct) hist = Some st ->
-  option_map snd (run_op ct fuel st es) = option_map snd (run_op ct fuel (store0 ct) es).
 
 (* ---- the generated class table (every schema, every configuration) ---------------------- *)
 (* names_graphql: every generated field object is constructed with its GraphQL name *)
@@ -32,11 +21,12 @@ Proof. reflexivity. Qed.
 Theorem C14_class_table_wf : forall c s q m, wf_ct (gen_classes c s q m).
 Proof. exact gen_classes_wf. Qed.
 Print Assumptions C14_class_table_wf.
-(* the generated serialize expression (one call per occurrence, lists item by item, None guards on
-   nullable positions) computes the specified element-wise serialisation EXACTLY on the values of the
-   argument's type (nn_ok: arrays at list positions, no None at a non-null item position); on every
-   other value it raises (None) or serialises a None — so the precondition g_conform of
-   C14_doc_valid is not wider than necessary *)
+
+(* ---- argument values --------------------------------------------------------------------- *)
+(* the generated serialize expression computes the specified element-wise serialisation EXACTLY on
+   the values of the argument's type (nn_ok: arrays at list positions, no None at a non-null item
+   position); on every other value it raises (None) or serialises a None — the precondition
+   g_conform below is not wider than necessary *)
 Theorem C14_serialize_exact : forall t top v,
   ser_t top t v = Some (ser_spec t v) <-> nn_ok top t v = true.
 Proof.
@@ -45,12 +35,18 @@ Proof.
   - apply ser_t_spec.
 Qed.
 Print Assumptions C14_serialize_exact.
-(* none_omitted + values_bound + type_exact for one classmethod call: the variables put on the
-   object are the ideal ones (exact type, caller's value serialised element-wise, None omitted) *)
+(* none_omitted + values_bound + type_exact for one classmethod call *)
 Theorem C14_call_exact : forall c l args, args_conform (map (arg_meta c) l) args = true ->
   call_vars (map (arg_meta c) l) args = ideal_vars (map (arg_meta c) l) args.
 Proof. intros. apply call_vars_exact; [apply arg_metas_wf | assumption]. Qed.
 Print Assumptions C14_call_exact.
+(* ... and for whole expressions: what the builder calls construct IS the object tree the expression
+   stands for (GraphQL names, exact types, caller's serialised values, None omitted), failure cases
+   included; attribute access yields a fresh object, so alias()/on() on it stay local *)
+Theorem C14_eval_is_ideal : forall c s q m e,
+  let ct := gen_classes c s q m in g_conform ct e = true -> eval ct e = ideal ct e.
+Proof. intros. apply eval_ideal; [apply gen_classes_wf | assumption]. Qed.
+Print Assumptions C14_eval_is_ideal.
 
 (* ---- variable names ---------------------------------------------------------------------- *)
 Theorem C14_fresh_name_total : forall idx v used, exists u, format_variable_name idx v used = Some u.
@@ -59,30 +55,26 @@ Print Assumptions C14_fresh_name_total.
 Theorem C14_fresh_name : forall idx v used u, format_variable_name idx v used = Some u -> ~ In u used.
 Proof. exact format_variable_name_fresh. Qed.
 Print Assumptions C14_fresh_name.
-(* unique ACROSS all top-level fields of an operation, for ANY object graph and store (shared
-   objects included): the variable names occurring in the document are pairwise distinct *)
-Theorem C14_unique_var_names_operation : forall fuel st ns st' sns,
-  build_sels fuel 0 st ns = Some (st', sns) -> NoDup (op_vars sns).
+(* unique ACROSS all top-level fields of an operation, for ANY object trees *)
+Theorem C14_unique_var_names_operation : forall fuel ns sns,
+  build_sels fuel ns = Some sns -> NoDup (op_vars sns).
 Proof. exact unique_var_names_operation. Qed.
 Print Assumptions C14_unique_var_names_operation.
 
 (* ---- the composed theorem --------------------------------------------------------------- *)
-(* For every schema and configuration, every history and every operation in which alias()/on() is
-   never applied to a class-level shared object (g_shared — the one open finding class) and whose
-   argument values have no None at a non-null item position of a serialised scalar (g_conform — a
-   well-typedness precondition on the caller's values), whenever the operation builds and the
-   expression denotes a request at all:
+(* For every schema and configuration and EVERY operation whose argument values are values of the
+   argument types (g_conform, exact by C14_serialize_exact), whenever the operation builds and the
+   expression denotes a request:
    (1) the request resolves to the ideal request: GraphQL field and argument names, every variable
-       declared with the argument's exact type and bound to the caller's (serialised) value, None
-       arguments omitted, at every depth;
+       declared with the argument's exact type and bound to the caller's (element-wise serialised)
+       value, None arguments omitted, at every depth;
    (2) no variable is declared twice; (3) the declared variables are exactly the variables used in
-       the document, in document order; (4) exactly the declared variables are bound. *)
-Theorem C14_doc_valid : forall c s q m fuel f2 hist st es st' rq idl,
+       the document, in document order; (4) exactly the declared variables are bound.
+   No guard for shared objects is left: class attributes hand out fresh objects (fix 5c467bf). *)
+Theorem C14_doc_valid : forall c s q m fuel f2 es rq idl,
   let ct := gen_classes c s q m in
-  Forall (fun es => forallb g_shared es = true) hist -> forallb g_shared es = true ->
   forallb (g_conform ct) es = true ->
-  run_hist ct fuel (store0 ct) hist = Some st ->
-  run_op ct fuel st es = Some (st', rq) -> ideal_sels ct f2 es = Some idl ->
+  run_op ct fuel es = Some rq -> ideal_sels ct f2 es = Some idl ->
   resolves (look_req rq) (r_sels rq) = Some idl /\
   NoDup (keys (r_vardefs rq)) /\
   keys (r_vardefs rq) = flat_map sel_vars (r_sels rq) /\
@@ -90,98 +82,72 @@ Theorem C14_doc_valid : forall c s q m fuel f2 hist st es st' rq idl,
 Proof. intros. eapply doc_valid; eauto. apply gen_classes_wf. Qed.
 Print Assumptions C14_doc_valid.
 
-(* NO EXCEPTION + the composed statement, unconditional in the builder's result: if the expression
-   denotes a request at all (its ideal exists within depth f), then after any history free of shared
-   mutations the operation BUILDS with recursion depth f+1, leaves the shared objects untouched, and
-   its request is the ideal one *)
-Theorem C14_doc_valid_total : forall c s q m f hist st es idl,
+(* NO EXCEPTION + the composed statement: if the expression denotes a request at all (its ideal
+   exists within depth f) the operation BUILDS with recursion depth f and its request is the ideal *)
+Theorem C14_doc_valid_total : forall c s q m f es idl,
   let ct := gen_classes c s q m in
-  Forall (fun es => forallb g_shared es = true) hist -> forallb g_shared es = true ->
-  forallb (g_conform ct) es = true ->
-  run_hist ct (S f) (store0 ct) hist = Some st ->
-  ideal_sels ct f es = Some idl ->
-  exists rq, run_op ct (S f) st es = Some (st, rq) /\
+  forallb (g_conform ct) es = true -> ideal_sels ct f es = Some idl ->
+  exists rq, run_op ct f es = Some rq /\
     resolves (look_req rq) (r_sels rq) = Some idl /\
     NoDup (keys (r_vardefs rq)) /\
     keys (r_vardefs rq) = flat_map sel_vars (r_sels rq) /\
     keys (r_values rq) = keys (r_vardefs rq).
-Proof.
-  intros c s q m f hist st es idl ct Hh Hg Hc Hr Hi.
-  rewrite (safe_history_keeps_store _ _ _ _ Hh Hr).
-  apply doc_valid_total; auto. apply gen_classes_wf.
-Qed.
+Proof. intros. apply doc_valid_total; auto. apply gen_classes_wf. Qed.
 Print Assumptions C14_doc_valid_total.
 
-(* history freedom: after ANY history free of shared mutations every operation — guarded or not —
-   yields the request it yields right after import *)
-Theorem C14_history_free_partial : forall ct fuel hist st es,
-  Forall (fun es => forallb g_shared es = true) hist ->
-  run_hist ct fuel (store0 ct) hist = Some st ->
-  run_op ct fuel st es = run_op ct fuel (store0 ct) es.
-Proof. exact history_free_safe. Qed.
-Print Assumptions C14_history_free_partial.
+(* ---- history freedom --------------------------------------------------------------------- *)
+(* The request is a function of the expressions alone (run_op takes no state): no builder operation
+   can reach a class-level object any more, so "never on builder objects used in earlier operations"
+   is by construction in the model and is established for the real code by the tie (histories vs a
+   fresh process).  What remains to PROVE is re-use of the field objects themselves: objects that
+   already went through an operation (their formatted_variables rewritten by to_ast) build the same
+   request again, at any later position. *)
+Theorem C14_reuse_request : forall fuel ns sns,
+  build_sels fuel ns = Some sns ->
+  build_request fuel (map (fun r => snd r) sns) = build_request fuel ns.
+Proof. exact reuse_request. Qed.
+Print Assumptions C14_reuse_request.
+Theorem C14_reuse_field : forall f idx u n u' sl n',
+  to_ast f idx u n = Some (u', (sl, n')) -> forall i2 u2, to_ast f i2 u2 n' = to_ast f i2 u2 n.
+Proof. exact reuseB_all. Qed.
 
-(* ---- what stays refuted: F15-shared-mutation -------------------------------------------- *)
-(* alias() on the class-level object PersonFields.id persists into the next operation *)
-Theorem C14_history_free_refuted_alias : exists st,
-  run_hist Demo.ct 64 (store0 Demo.ct) Demo.h_alias = Some st /\
-  option_map snd (run_op Demo.ct 64 st [Demo.e_plain]) <>
-  option_map snd (run_op Demo.ct 64 (store0 Demo.ct) [Demo.e_plain]) /\
-  faithful_on Demo.ct 64 Demo.h_alias [Demo.e_plain] = Some false /\
-  faithful_on Demo.ct 64 [] [Demo.e_plain] = Some true.
-Proof.
-  eexists. split; [vm_compute; reflexivity|]. split; [|split; vm_compute; reflexivity].
-  vm_compute. discriminate.
-Qed.
-(* on() on the class-level union object PersonFields.favourite persists as well *)
-Theorem C14_history_free_refuted_on : exists st,
-  run_hist Demo.ct 64 (store0 Demo.ct) Demo.h_on = Some st /\
-  option_map snd (run_op Demo.ct 64 st [Demo.e_on]) <>
-  option_map snd (run_op Demo.ct 64 (store0 Demo.ct) [Demo.e_on]).
-Proof. eexists. split; [vm_compute; reflexivity|]. vm_compute. discriminate. Qed.
-Theorem C14_history_free_full_refuted : ~ C14_history_free_full.
-Proof.
-  intro H. destruct C14_history_free_refuted_alias as [st [Hr [Hne _]]].
-  apply Hne. apply (H _ _ _ _ _ Hr).
-Qed.
-Theorem C14_faithful_full_refuted : ~ C14_faithful_full.
-Proof.
-  intro H. specialize (H Demo.ct 64 Demo.h_alias [Demo.e_plain] false).
-  assert (false = true) by (apply H; vm_compute; reflexivity). discriminate.
-Qed.
-Print Assumptions C14_faithful_full_refuted.
-
-(* ---- non-vacuity and regression cases ---------------------------------------------------- *)
-(* the witnesses of the seven repaired classes are faithful now *)
-Example C14_repaired_witnesses :
-  map (fun e => faithful_on Demo.ct 64 [] [e]) [Demo.e_types; Demo.e_names; Demo.e_depth; Demo.e_ser]
-  = [Some true; Some true; Some true; Some true] /\
-  faithful_on Demo.ct 64 [] Demo.es_collide = Some true.
+(* ---- regression cases (each replayed on the real client by the harness) ------------------ *)
+Definition me := Call "Query" "me" [].
+(* the former F15-shared-mutation witnesses: alias()/on() on a class attribute stay local, also
+   inside ONE operation (aliased and plain use of PersonFields.id side by side) *)
+Example C14_former_shared_mutation_witnesses :
+  map (fun es => faithful_on Demo.ct 64 es)
+      (Demo.h_alias ++ [[Demo.e_plain]] ++ Demo.h_on ++ [[Demo.e_on]] ++
+       [[Fields me [Alias Demo.pid "n1"; Demo.pid]]])
+  = [Some true; Some true; Some true; Some true; Some true] /\
+  option_map r_sels (run_op Demo.ct 64 [Fields me [Alias Demo.pid "n1"; Demo.pid]])
+  = Some [SF None "me" [] (Some [SF (Some "n1") "id" [] None; SF None "id" [] None])].
 Proof. vm_compute. split; reflexivity. Qed.
-(* regression for fix 3032a3a: [Instant!] and [Instant] arguments are serialised item by item, a None
-   item of the nullable item type stays None; declared with the exact list types; faithful *)
+(* the witnesses of the seven classes repaired earlier *)
+Example C14_repaired_witnesses :
+  map (fun e => faithful_on Demo.ct 64 [e]) [Demo.e_types; Demo.e_names; Demo.e_depth; Demo.e_ser]
+  = [Some true; Some true; Some true; Some true] /\
+  faithful_on Demo.ct 64 Demo.es_collide = Some true.
+Proof. vm_compute. split; reflexivity. Qed.
+(* fix 3032a3a: [Instant!] and [Instant] arguments are serialised item by item *)
 Example C14_serialize_list_regression :
-  option_map (fun r => (r_vardefs (snd r), r_values (snd r)))
-             (run_op Demo.ct 64 (store0 Demo.ct) [Demo.e_serlist])
+  option_map (fun r => (r_vardefs r, r_values r)) (run_op Demo.ct 64 [Demo.e_serlist])
   = Some ([("at_0", "[Instant!]"); ("opt_0", "[Instant]")],
           [("at_0", JArr [ser (JStr "a"); ser (JStr "b")]); ("opt_0", JArr [JNull; ser (JStr "c")])]) /\
-  faithful_on Demo.ct 64 [] [Demo.e_serlist] = Some true /\
+  faithful_on Demo.ct 64 [Demo.e_serlist] = Some true /\
   g_conform Demo.ct Demo.e_serlist = true /\
-  (* the unguarded non-null item position: where the precondition fails the code calls serialize(None) *)
   ser_t true (TList (TNonNull (TNamed "Instant"))) (JArr [JNull]) = Some (JArr [ser JNull]) /\
   ser_t true (TList (TNamed "Instant")) (JStr "not a list") = None /\
   ser_spec (TList (TNonNull (TNamed "Instant"))) (JArr [JNull]) = JArr [JNull].
 Proof. vm_compute. repeat split. Qed.
-(* the hypotheses of C14_doc_valid are met by a two-field operation with aliases, a serialised
-   scalar, sub-selections and five variables, also after itself as history *)
+(* the hypotheses of C14_doc_valid_total are met by a two-field operation with aliases, a serialised
+   scalar, sub-selections and five variables *)
 Example C14_doc_valid_hypotheses_satisfiable :
-  forallb g_shared Demo.es_good = true /\ forallb (g_conform Demo.ct) Demo.es_good = true /\
-  faithful_on Demo.ct 64 [Demo.es_good; Demo.es_good] Demo.es_good = Some true /\
-  option_map (fun r => List.length (r_vardefs (snd r))) (run_op Demo.ct 64 (store0 Demo.ct) Demo.es_good) = Some 5 /\
+  forallb (g_conform Demo.ct) Demo.es_good = true /\
+  faithful_on Demo.ct 64 Demo.es_good = Some true /\
+  option_map (fun r => List.length (r_vardefs r)) (run_op Demo.ct 64 Demo.es_good) = Some 5 /\
   (exists l, ideal_sels Demo.ct 64 Demo.es_good = Some l).
 Proof. vm_compute. repeat split. eexists. reflexivity. Qed.
-(* the loop really renames, and the one used-names set spans the fields: a_0_1 is taken when field 1
-   asks for a_0 + "_1" *)
 Example C14_name_loop_example :
   format_variable_name 0 "a" ["a_0"] = Some "a_0_1" /\
   format_variable_name 1 "a_0" ["a_0_1"; "a_0"] = Some "a_0_1_1".
